@@ -1,2 +1,32 @@
-From Coq Require Import ZArith List.
-From BT Require Import Model.RTree.
+(* C06 -- serialized state round-trips.
+   pickle / copy.deepcopy of a container that is not in a database: no object
+   has an oid, every object is written once with the state __getstate__ gives
+   (a node whose only child is a leaf EMBEDS that leaf's state).  dump_all []
+   is that set of records; the reader of C04 rebuilds the copy.
+   Under the guard (only the root has a single leaf child) the copy has the
+   same contents and satisfies the stored invariant; without it the statement
+   is false for the faithful model and for both implementations (finding F16c).
+   That C and Python emit byte-identical pickles and load each other's pickles
+   is the differential part of the check (harness). *)
+From Coq Require Import ZArith List Bool.
+From BT Require Import Model.RTree Model.TreeSpec Model.Check Model.Persist Model.PersistSpec Proofs.PickleProofs.
+Import ListNotations.
+Open Scope Z_scope.
+
+Theorem C06_pickle_roundtrip_partial :
+  forall (V : Type) (ml mi : nat) (t : tree V),
+  Inv V ml mi t -> NoDup (ids V t) -> no_embed_below V true [] t ->
+  let s := dump_all V [] t in
+  let fuel := S (length (ids V t)) in
+  load_items V fuel s (tid V t) = contents V t /\
+  reader_iter V fuel s (tid V t) = contents V t /\
+  exists p, load V fuel s (tid V t) = Some p /\ inv_stored p.
+Proof. exact PickleProofs.pickle_roundtrip. Qed.
+Print Assumptions C06_pickle_roundtrip_partial.
+
+Theorem C06_refuted :
+  exists t : tree Z,
+    Inv Z 1 2 t /\ NoDup (ids Z t) /\
+    forall q, load Z 20 (dump_all Z [] t) (tid Z t) = Some q -> pcheck_fn q = false.
+Proof. exact PickleProofs.pickle_refuted. Qed.
+Print Assumptions C06_refuted.
